@@ -1001,14 +1001,14 @@ Proof.
 Qed.
 
 (* harmonicWalls: accepted => at least one list of walls; every list that is given has one wall per variable; with both
-   lists every lower wall is below its upper wall (and not within 1e-6 of it) and the two constants are non-zero *)
-Lemma walls_accept n e : (0 < n)%nat ->
-  x_err (fst (walls_validate n e)) = false ->
-  let s := snd (walls_validate n e) in
+   lists every lower wall is below its upper wall (and not within 1e-6 widths of it) and the two constants are non-zero *)
+Lemma walls_accept ws n e : (0 < n)%nat ->
+  x_err (fst (walls_validate ws n e)) = false ->
+  let s := snd (walls_validate ws n e) in
   (wx_lower s <> [] \/ wx_upper s <> []) /\
   (wx_lower s <> [] -> List.length (wx_lower s) = n) /\ (wx_upper s <> [] -> List.length (wx_upper s) = n) /\
   (wx_lower s <> [] -> wx_upper s <> [] ->
-     pairwise_lt (wx_lower s) (wx_upper s) = true /\ pairwise_apart (wx_lower s) (wx_upper s) = true /\
+     pairwise_lt (wx_lower s) (wx_upper s) = true /\ pairwise_apart ws (wx_lower s) (wx_upper s) = true /\
      Qeq_bool (wx_lk s * wx_uk s) Q0 = false).
 Proof.
   intro Hn. unfold walls_validate.
@@ -1032,7 +1032,7 @@ Proof.
     split; [left; apply Hnz; exact E1|]. split; [exact Hll|]. split; [exact Hlu|].
     intros _ Hne. exfalso. apply Hne. apply Hz. exact E2.
   - destruct (ereal e "lowerWallConstant" fk) as [lk p1]. destruct (ereal e "upperWallConstant" fk) as [uk p2].
-    destruct (negb (pairwise_lt lw uw) || negb (pairwise_apart lw uw)) eqn:Ep; [cbn [fst]; rewrite x_err_flag_input; discriminate|].
+    destruct (negb (pairwise_lt lw uw) || negb (pairwise_apart ws lw uw)) eqn:Ep; [cbn [fst]; rewrite x_err_flag_input; discriminate|].
     destruct (Qeq_bool (lk * uk) Q0) eqn:Ek; [cbn [fst]; rewrite x_err_flag_input; discriminate|].
     cbn [fst snd wx_lower wx_upper wx_lk wx_uk]. intros _.
     split; [left; apply Hnz; exact E1|]. split; [exact Hll|]. split; [exact Hlu|]. intros _ _.
